@@ -699,6 +699,41 @@ def _clean_mesh(rng, nx, ny, sym, kind):
     return mesh, span, chord
 
 
+def _ref_axis(rng):
+    """reference-axis position in [0, 1]: the end points (leading / trailing edge) and the default are admissible special values"""
+    return float(rng.choice([rng.uniform(0, 1), 0.0, 1.0, 0.25], p=[0.55, 0.2, 0.15, 0.1]))
+
+
+@oracle("C13", "reused_dictionary")
+def c13_reused_dictionary(rng, tier):
+    """a planform study: ONE surface dictionary, a fresh problem per mesh.  Whatever an earlier problem did, the defaults must leave
+    each new mesh unchanged and `span` must still mean the tip-to-tip extent of the mesh now in the dictionary."""
+    nx, ny = _pick_size(rng, tier)
+    sym = bool(rng.integers(2))
+    s = dict(name="wing", symmetry=sym, S_ref_type="wetted", fem_model_type="tube")
+    if rng.uniform() < 0.5:
+        s["ref_axis_pos"] = _ref_axis(rng)
+    decl = [k for k in ("taper", "sweep", "dihedral", "twist_cp", "chord_cp") if rng.uniform() < 0.4]
+    for k in decl:
+        s[k] = {"taper": 1.0, "sweep": 0.0, "dihedral": 0.0}.get(k, np.ones(2) if k == "chord_cp" else np.zeros(2))
+    keys0 = sorted(s)
+    out = []
+    for step in range(3):
+        mesh, span, chord = _clean_mesh(rng, nx, ny, sym, "flat")
+        s["mesh"] = mesh.copy()
+        got = _run_geometry(s)
+        err = np.max(np.abs(got - mesh))
+        if err > 1e-12 * max(span, chord):
+            out.append(_fail("default design variables change the mesh when the surface dictionary is reused for another planform",
+                             err, 0.0, step=step, nx=nx, ny=mesh.shape[1], symmetry=sym, span=span, declared=decl))
+            break
+        extra = sorted(k for k in s if k not in keys0 and k != "mesh")
+        if extra:
+            out.append(_fail("Geometry added keys to the user's surface dictionary", extra, [], step=step))
+            break
+    return out
+
+
 @oracle("C13", "defaults_are_noop")
 def c13_defaults(rng, tier):
     nx, ny = _pick_size(rng, tier)
@@ -710,7 +745,7 @@ def c13_defaults(rng, tier):
     ncp = int(rng.integers(2, 5))
     s = dict(name="wing", symmetry=sym, mesh=mesh.copy(), S_ref_type="wetted", fem_model_type="tube")
     if rng.uniform() < 0.5:
-        s["ref_axis_pos"] = float(rng.uniform(0, 1))
+        s["ref_axis_pos"] = _ref_axis(rng)
     # a random subset of design variables is declared, all at their default values
     decl = [k for k in ("taper", "chord_cp", "sweep", "xshear_cp", "yshear_cp", "dihedral", "zshear_cp", "twist_cp") if rng.uniform() < 0.6]
     for k in decl:
@@ -751,8 +786,10 @@ def c13_effects(rng, tier):
     sym = bool(rng.integers(2))
     mesh, span, chord = _clean_mesh(rng, nx, ny, sym, "flat")
     ny = mesh.shape[1]
-    pos = float(rng.uniform(0, 1))
+    pos = _ref_axis(rng)
     base = dict(name="wing", symmetry=sym, mesh=mesh, ref_axis_pos=pos)
+    if pos == 0.25 and rng.uniform() < 0.5:
+        del base["ref_axis_pos"]        # the documented default
     ref = pos * mesh[-1] + (1 - pos) * mesh[0]
     root = ny - 1 if sym else (ny - 1) // 2
     dist = np.abs(mesh[0, :, 1] - mesh[0, root, 1])
